@@ -77,12 +77,14 @@ Proof.
   cbv beta.
   eapply (stable_bind _ _ _ _ (h_session h)).
   { destruct (h_session h) as [sv|] eqn:Es; cbn [is_some opt_bytes].
-    - apply (stable_pmap Some (uint BE 4)). apply stable_uint. cbn in Hs. apply N.ltb_lt in Hs. exact Hs.
+    - apply (stable_pmap Some (uint BE 4)). apply stable_uint. rewrite pow256.
+      change (8 * N.of_nat 4) with 32. apply N.ltb_lt. exact Hs.
     - apply stable_ret. }
   cbv beta.
   eapply (stable_bind _ _ _ _ (h_timestamp h)).
   { destruct (h_timestamp h) as [tv|] eqn:Et; cbn [is_some opt_bytes].
-    - apply (stable_pmap Some (uint BE 4)). apply stable_uint. cbn in Ht. apply N.ltb_lt in Ht. exact Ht.
+    - apply (stable_pmap Some (uint BE 4)). apply stable_uint. rewrite pow256.
+      change (8 * N.of_nat 4) with 32. apply N.ltb_lt. exact Ht.
     - apply stable_ret. }
   cbv beta.
   destruct (N.ltb_spec (overall_length h) (calculate_all_headers_length htyp)) as [Hbad|_]; [lia|].
@@ -156,7 +158,8 @@ Proof.
     by (destruct (h_session h); [apply len_put_uint | reflexivity]).
   assert (L3 : len (match h_timestamp h with Some v => put_uint BE 4 v | None => [] end) = if is_some (h_timestamp h) then 4 else 0)
     by (destruct (h_timestamp h); [apply len_put_uint | reflexivity]).
-  rewrite L1, L2, L3. cbn [len length]. lia.
+  rewrite L1, L2, L3. change (len [n2b (header_type_byte h); n2b (h_mcnt h)]) with 2.
+  destruct (is_some (h_ecu h)), (is_some (h_session h)), (is_some (h_timestamp h)); lia.
 Qed.
 
 Lemma len_ext_header_bytes x : wf_ext x = true -> len (ext_header_bytes x) = 10.
@@ -166,4 +169,41 @@ Proof.
   apply andb_true_iff in Hc as [Hc _]. apply andb_true_iff in Hc as [Hc _].
   apply N.leb_le in Ha, Hc.
   unfold ext_header_bytes. rewrite !len_app, !len_put_zstring by assumption. reflexivity.
+Qed.
+
+(* ---------- lengths declared by a well-formed standard header ---------- *)
+Lemma header_type_byte_eq h :
+  header_type_byte h = htyp_encode (h_has_ext h) (h_endian h) (is_some (h_ecu h)) (is_some (h_session h))
+                           (is_some (h_timestamp h)) (h_version h).
+Proof. unfold header_type_byte, is_some. now destruct (h_ecu h), (h_session h), (h_timestamp h). Qed.
+
+Lemma wf_std_version h : wf_std h = true -> h_version h < 8.
+Proof.
+  unfold wf_std. intros Hwf.
+  apply andb_true_iff in Hwf as [Hwf _]. apply andb_true_iff in Hwf as [Hwf _].
+  apply andb_true_iff in Hwf as [Hwf _]. apply andb_true_iff in Hwf as [Hv _]. now apply N.ltb_lt.
+Qed.
+
+Lemma all_headers_length_split h :
+  wf_std h = true ->
+  calculate_all_headers_length (header_type_byte h) =
+  calculate_standard_header_length (header_type_byte h) + (if h_has_ext h then 10 else 0).
+Proof.
+  intros Hwf. pose proof (wf_std_version h Hwf) as Hv.
+  destruct (htyp_fields (h_has_ext h) (h_endian h) (is_some (h_ecu h)) (is_some (h_session h))
+              (is_some (h_timestamp h)) (h_version h) Hv) as (_ & F1 & _).
+  rewrite <- header_type_byte_eq in F1. unfold calculate_all_headers_length. now rewrite F1.
+Qed.
+
+Lemma all_headers_length_eq h :
+  wf_std h = true ->
+  calculate_all_headers_length (header_type_byte h) + h_payload_length h = overall_length_raw h.
+Proof.
+  intros Hwf. pose proof (wf_std_version h Hwf) as Hv.
+  destruct (htyp_fields (h_has_ext h) (h_endian h) (is_some (h_ecu h)) (is_some (h_session h))
+              (is_some (h_timestamp h)) (h_version h) Hv) as (_ & F1 & _ & F4 & F8 & F16 & _).
+  rewrite <- header_type_byte_eq in *.
+  unfold calculate_all_headers_length, calculate_standard_header_length, overall_length_raw.
+  rewrite F1, F4, F8, F16. unfold is_some.
+  destruct (h_ecu h), (h_session h), (h_timestamp h), (h_has_ext h); lia.
 Qed.
